@@ -1,6 +1,7 @@
 import Gonnx.Gate
 import Gonnx.Generated.Registry
 import Gonnx.Spec.Arity
+import Gonnx.Spec.Types
 /-
 C15 — every operator's input gate enforces arity and element types before computing.
 
@@ -139,6 +140,12 @@ opset-13 arity (minimum = required inputs, maximum = all inputs of the schema) w
 `gate_registry` means shorter / longer than ONNX allows, and a required input can never reach Apply absent -/
 theorem registry_arity_onnx :
     ∀ d ∈ Generated.registry, d.name ≠ "Concat" → Spec.arityOf d.name = some (d.min, d.max) := by
+  decide
+
+/-- **Obligation over the regenerated table:** every registered operator admits, at every input position,
+exactly the element types written down in `Spec/Types.lean` -/
+theorem registry_types_pinned :
+    ∀ d ∈ Generated.registry, d.name ≠ "Concat" → Spec.typesOf d.name = some d.constraints := by
   decide
 
 /-- every operator of the table is registered -/
